@@ -495,6 +495,108 @@ def check_counts(col, alph, rows, k, axis, view=None, text=False):
             col.check(g == exp[c], sig + ":lookup-wrong-count", case, "res[%r] = %d expected %d" % (o_text(c, alph, k), g, exp[c]))
 
 
+# ---- scale: counting runs over the flat window array in blocks of about a million windows
+def big_lengths(layout, k, windows):
+    """row lengths with exactly `windows` windows of size k in total.  long: a few very long rows between short / empty ones;
+    reads: thousands of rows of 0..150 letters (rows shorter than k, of k-1, k, k+1 letters among them), short last row"""
+    nwin = lambda L: max(L - k + 1, 0)
+    if layout == "long":
+        lens = [k - 1, 300001, 0, 1, k, 400007, k + 1]
+    else:
+        lens, tot, i = [], 0, 0
+        while windows - tot > 400:
+            L = (0, k - 1, k, k + 1, 1)[(i // 13) % 5] if i % 13 == 0 else 20 + (i * 37 + (i * i) // 7) % 131
+            lens.append(L)
+            tot += nwin(L)
+            i += 1
+    rest = windows - sum(nwin(L) for L in lens)
+    assert rest > 0
+    lens += [rest + k - 1, 0, k - 1]
+    assert sum(nwin(L) for L in lens) == windows
+    return lens
+
+
+def big_letters(n, A, salt):
+    """n deterministic pseudo-random letters 0..A-1 (64-bit LCG of the position), numpy uint8"""
+    import numpy as np
+    i = np.arange(n, dtype=np.uint64) + np.uint64(salt * 7919)
+    x = (i * np.uint64(6364136223846793005) + np.uint64(1442695040888963407)) >> np.uint64(33)
+    x = (x * np.uint64(2862933555777941757) + np.uint64(3037000493)) >> np.uint64(35)
+    return (x % np.uint64(A)).astype(np.uint8)
+
+
+def check_big_counts(col, alph, layout, windows, k, axis, view=None, text=False, salt=0):
+    """count_kmers where the number of windows is around the block size of the counting loop (1,000,000).
+    Oracle: codes computed here from the letters (sum letter*A**j over explicit shifted slices), windows kept only when first and
+    last letter lie in the same row, np.bincount of those; the window total is cross-checked against sum(max(L-k+1, 0))."""
+    import numpy as np
+    from bionumpy.sequence import count_kmers
+    from bionumpy.encoded_array import EncodedArray, EncodedRaggedArray, BaseEncoding
+    A = len(alph)
+    case = {"fn": "bigcounts", "alph": alph, "layout": layout, "windows": windows, "k": k, "axis": axis, "salt": salt}
+    if view:
+        case["view"] = view
+    if text:
+        case["text"] = True
+    sig = "count_kmers:%s:large%s" % ("all" if axis is None else "per-row", view_tag(view))
+    col.case(case, contract="count_kmers:large" + view_tag(view))
+    lens = np.array(big_lengths(layout, k, windows), dtype=np.int64)
+    n, nrows = int(lens.sum()), len(lens)
+    letters = big_letters(n, A, salt)
+    # ---- oracle
+    m = n - k + 1
+    code = np.zeros(m, dtype=np.int64)
+    for j in range(k):
+        code += letters[j:j + m].astype(np.int64) * (A ** j)
+    row_id = np.repeat(np.arange(nrows), lens)
+    valid = row_id[:m] == row_id[k - 1:]
+    assert int(valid.sum()) == windows
+    if axis is None:
+        exp = np.bincount(code[valid], minlength=A ** k)
+    else:
+        exp = np.bincount(row_id[:m][valid] * (A ** k) + code[valid], minlength=nrows * A ** k).reshape(nrows, A ** k)
+    # ---- input: contiguous, or an unflattened view (rows as base[:-1] / base[::-1] / base[:, 1:] of a larger array)
+    codes8 = np.frombuffer(alph.encode(), dtype=np.uint8)[letters] if text else letters
+    enc = BaseEncoding if text else enc_of(alph)
+    if view is None:
+        seqs = EncodedRaggedArray(EncodedArray(codes8.copy(), enc), lens)
+    else:
+        starts = np.cumsum(lens) - lens
+        extra = np.frombuffer(alph.encode(), dtype=np.uint8)[:3] if text else np.arange(3, dtype=np.uint8) % A
+        if view == "head":
+            base = EncodedRaggedArray(EncodedArray(np.concatenate([codes8, extra]), enc), np.append(lens, 3))
+            seqs = base[:-1]
+        elif view == "rev":
+            order = np.arange(nrows)[::-1]
+            idx = np.repeat(starts[order] - (np.cumsum(lens[order]) - lens[order]), lens[order]) + np.arange(n)
+            base = EncodedRaggedArray(EncodedArray(codes8[idx], enc), lens[order])
+            seqs = base[::-1]
+        elif view == "col-left":
+            data = np.insert(codes8, starts, extra[(np.arange(nrows) % 3)])
+            base = EncodedRaggedArray(EncodedArray(data, enc), lens + 1)
+            seqs = base[:, 1:]
+        else:
+            raise ValueError(view)
+        assert not seqs.is_contigous and np.array_equal(seqs.lengths, lens)
+    res = col.guarded(lambda: count_kmers(seqs, k, axis=axis), sig, case)
+    if res is None:
+        return
+    got = col.guarded(lambda: np.asarray(res.counts), sig + ":unreadable-result", case)
+    if got is None:
+        return
+    if not col.check(got.shape == exp.shape, sig + ":wrong-shape", case, "counts shape %r expected %r" % (got.shape, exp.shape)):
+        return
+    if not col.check(int(got.sum()) == windows, sig + ":wrong-total", case,
+                     "%d windows counted, the input has %d (rows: %d, letters: %d)" % (int(got.sum()), windows, nrows, n)):
+        return
+    bad = np.argwhere(got != exp)
+    col.check(len(bad) == 0, sig + ":wrong-counts", case, "%d cells differ, first at %r: got %r expected %r"
+              % (len(bad), bad[:1].tolist(), got[tuple(bad[0])] if len(bad) else None, exp[tuple(bad[0])] if len(bad) else None))
+    labels = list(res.alphabet)
+    e = [o_text(c, alph, k) for c in range(A ** k)]
+    col.check(labels == e, "count_kmers:labels-differ-from-kmer-text", case, "got %r expected %r" % (labels[:20], e[:20]))
+
+
 def check_util_rolling(col, rows, w, kind, view=None):
     """bionumpy.util.rolling_window_function with f = weighted window sum (position-sensitive); values 1..8"""
     import numpy as np
@@ -586,16 +688,26 @@ def run(tier="quick", seed=0):
     col = MinCollector("C13", tier, seed,
                     "A: every list of 1..3 rows with lengths 0..%d x every w/k 1..%d (minimizers: every k <= w) x content variants "
                     "(2 deterministic + 1 seeded) x alphabets/paths; B: all contents of 1..2 short rows over 2- and 4-letter alphabets; "
-                    "C: long layouts for every k 1..31; D: flat 1-D and 2-D inputs; E: k-mer text<->code for every k. "
+                    "C: long layouts for every k 1..31; D: flat 1-D and 2-D inputs; E: k-mer text<->code for every k; "
+                    "V: the cases of A (content variant 0), A', C, D and the samples again with the same logical rows presented as an "
+                    "unflattened view of a larger array (%d ragged view kinds: rows reversed / reordered / repeated / masked / sliced, columns "
+                    "trimmed left / right / both, combinations; sliced 2-D and 1-D arrays), view kind cycling with (shape, w, alphabet) so that "
+                    "every kind meets every function, path and window; F: count_kmers with the window total around the counting block size "
+                    "(1e6, 2e6, 3e6: -1, +0, +1, +3/+5). "
                     "distinct = distinct (function, path, alphabet, rows, window, pattern/matrix); all non-trivial except all-rows-shorter-than-w "
-                    "(kept: they exercise the 'none for a short sequence' clause)" % (Lmax, wmax),
+                    "(kept: they exercise the 'none for a short sequence' clause)" % (Lmax, wmax, len(VIEWS)),
                     budget_s=(55 if quick else 570))
     col.bounds = {"A.rows": "1..3", "A.row_length": "0..%d" % Lmax, "A.w": "1..%d" % wmax, "A'.4rows": "lengths in {0,1,w-1,w,w+1}, w in %s" % ("{2}" if quick else "{2,3,4}"),
                   "sampling": "%d seeded cases: 4..6 rows, lengths 0..12, w 1..12" % (150 if quick else 3000),
                   "A.alphabets": {"get_kmers": ALPHABETS, "minimizers/match/motif/counts": ["ACGT", "ACG"]},
                   "B.exhaustive_contents": "AC: 1..2 rows (quick) / 1..3 rows (thorough) of length 0..3; ACGT: 1 row 0..4, 2 rows 0..2",
                   "C.k": "1..31 (capped so that |A|**k < 2**63), 2 layouts of 13-14 rows, total > 128 letters",
-                  "D": "flat length 1..%d, 2-D 1..3 x 1..%d" % (Lmax + 2, Lmax), "E.k": "1..31, all texts if |A|**k <= 256 else 8 sampled + extremes"}
+                  "D": "flat length 1..%d, 2-D 1..3 x 1..%d" % (Lmax + 2, Lmax), "E.k": "1..31, all texts if |A|**k <= 256 else 8 sampled + extremes",
+                  "V.views": {"ragged": VIEWS, "2d": VIEWS_2D, "flat": VIEWS_FLAT, "per (shape, w, alphabet) in A": 1 if quick else 3,
+                              "alphabets": ["ACGT (bit-packed, ascii->dna, generic-rolling)", "ACG (generic)", "all 7 in C"]},
+                  "F.windows": "total windows in {1e6, 2e6} + {-1, 0, +1, +3|+5}, 3000001; k 1..3; ACGT / ACG / ACGTN; layouts: 10 rows with "
+                               "300k-1.3M-letter rows, 12k-35k reads of 0..150 letters; axis None (and -1 for two); contiguous and 3 view kinds"}
+    vrng = random.Random(seed + 1)       # view kinds for the sampled cases (keeps col.rng's sequence, i.e. the sampled rows, as before)
     rng = col.rng
 
     def stop():
@@ -613,6 +725,30 @@ def run(tier="quick", seed=0):
             check_kmer_codec(col, alph, k, texts)
         if stop():
             return col.result()
+
+    # ---- F. scale: window totals around the counting block size
+    big = []
+    for base in (1000000, 2000000):
+        for off in ((-1, 0, 1, 3 if base == 1000000 else 5) if not quick else (3 if base == 1000000 else 5,)):
+            big.append(base + off)
+    bi = 0
+    for windows in big + ([] if quick else [3000001]):
+        for alph in (("ACGT", "ACG") if quick else ("ACGT", "ACG", "ACGTN")):
+            for k in ((1 + (bi % 3),) if quick else (1, 2, 3)):
+                layout = ("long", "reads")[bi % 2]
+                check_big_counts(col, alph, layout, windows, k, None, salt=bi)
+                if not quick:
+                    check_big_counts(col, alph, ("long", "reads")[(bi + 1) % 2], windows, k, None, salt=bi)
+                bi += 1
+        if stop():
+            return col.result()
+    for alph, layout, windows, k, axis, view, text in (
+            ("ACGT", "reads", 1000003, 2, -1, None, False), ("ACG", "reads", 2000005, 2, -1, None, False),
+            ("ACGT", "reads", 1000003, 2, None, "head", False), ("ACGT", "reads", 2000005, 3, None, "rev", False),
+            ("ACG", "reads", 1000003, 2, None, "col-left", False), ("ACGT", "long", 2000005, 2, None, "col-left", True),
+            ("ACG", "long", 2000005, 3, None, "head", False), ("ACGT", "long", 1000003, 1, None, "rev", True),
+            ("ACGT", "reads", 2000005, 2, -1, "col-left", False), ("ACGT", "reads", 1000003, 3, None, None, True))[:(6 if quick else 10)]:
+        check_big_counts(col, alph, layout, windows, k, axis, view=view, text=text, salt=3)
 
     # ---- C. long layouts, every k
     for alph in ALPHABETS:
@@ -638,6 +774,26 @@ def run(tier="quick", seed=0):
                     if A ** k <= 256:
                         check_counts(col, alph, rows, k, None)
                         check_counts(col, alph, rows, k, -1)
+                # V: the same rows as an unflattened view; the kind cycles with (k, layout, alphabet)
+                for vi in range((1 if li == k % 2 else 0) if quick else 3):
+                    view = VIEWS[(k + li * 8 + ALPHABETS.index(alph) * 3 + vi * 5) % len(VIEWS)]
+                    vrows = view_rows(rows, view)
+                    check_kmers(col, alph, vrows, k, "api", render=False, view=view)
+                    if A == 4:
+                        check_kmers(col, alph, vrows, k, "rolling", render=False, view=view)
+                    if alph in ("ACGT", "ACG"):
+                        if alph == "ACGT":
+                            check_kmers(col, alph, vrows, k, "text", render=False, view=view)
+                        for p in patterns_for(vrows, k, alph, False)[:1]:
+                            check_match(col, alph, vrows, p, text=(alph == "ACGT" and (k + li) % 2 == 0), view=view)
+                        check_motif(col, alph, vrows, k, "digits" if li == 0 else "floats", text=(li == 1 and alph == "ACGT"), view=view)
+                        if (k + vi) % 2:
+                            check_motif(col, alph, vrows, k, "ints", old=True, view=view)
+                        for w in (k + 1, 34 - k % 2):
+                            if w >= k:
+                                check_minimizers(col, alph, view_rows(content(long_layouts(w)[li], alph, li), view), k, w, view=view)
+                        if A ** k <= 256:
+                            check_counts(col, alph, vrows, k, None if (k + li + vi) % 2 else -1, view=view, text=(alph == "ACGT" and k % 2 == 0))
             if stop():
                 return col.result()
 
@@ -655,6 +811,14 @@ def run(tier="quick", seed=0):
                 check_motif(col, alph, rows, w, "digits", kind="flat")
                 for k in range(1, w + 1):
                     check_minimizers(col, alph, rows, k, w, kind="flat")
+                # V: sliced 1-D arrays (seq[::-1], seq[::2], seq[2:], seq[:-2], seq[1:-2])
+                for vi in range(2 if quick else len(VIEWS_FLAT)):
+                    view = VIEWS_FLAT[(L + w + vi) % len(VIEWS_FLAT)]
+                    check_kmers(col, alph, rows, w, "api" if vi % 2 == 0 else "rolling", kind="flat", render=False, view=view)
+                    for p in patterns_for(rows, w, alph, False)[:1]:
+                        check_match(col, alph, rows, p, text=(vi % 2 == 1), kind="flat", view=view)
+                    check_motif(col, alph, rows, w, "digits", kind="flat", view=view)
+                    check_minimizers(col, alph, rows, 1 + (L + vi) % w, w, kind="flat", view=view)
         for n in (1, 2, 3):
             for L in range(1, Lmax + 1):
                 rows = content([L] * n, alph, 0)
@@ -665,6 +829,13 @@ def run(tier="quick", seed=0):
                         check_match(col, alph, rows, p, text=False, kind="2d")
                     for k in range(1, w + 1):
                         check_minimizers(col, alph, rows, k, w, kind="2d")
+                    # V: sliced (non-contiguous) 2-D arrays
+                    for vi in range(3 if quick else len(VIEWS_2D)):
+                        view = VIEWS_2D[(n * 5 + L + w * 7 + vi) % len(VIEWS_2D)]
+                        check_kmers(col, alph, rows, w, "api" if vi % 2 == 0 else "rolling", kind="2d", render=False, view=view)
+                        for p in patterns_for(rows, w, alph, False)[:1]:
+                            check_match(col, alph, rows, p, text=(vi % 2 == 1), kind="2d", view=view)
+                        check_minimizers(col, alph, rows, 1 + (L + vi) % w, w, kind="2d", view=view)
         if stop():
             return col.result()
     for n in (1, 2, 3):
@@ -672,11 +843,16 @@ def run(tier="quick", seed=0):
             rows = [[(i * 3 + r * 5 + i * i) % 7 + 1 for i in range(L)] for r in range(n)]
             for w in range(1, L + 1):
                 check_util_rolling(col, rows, w, "2d")
+                for vi in range(2 if quick else len(VIEWS_2D)):
+                    check_util_rolling(col, rows, w, "2d", view=VIEWS_2D[(n * 5 + L + w * 7 + vi) % len(VIEWS_2D)])
     for lengths in ([3], [2, 3], [3, 1, 0, 2], [0, 4], [1, 1, 1]):
         rows = [[(i * 3 + r * 5) % 7 + 1 for i in range(L)] for r, L in enumerate(lengths)]
         for w in (1, 2, 3):
             if sum(lengths) >= w:
                 check_util_rolling(col, rows, w, "ragged")
+                for vi in range(2 if quick else len(VIEWS)):
+                    view = VIEWS[(len(lengths) * 3 + w * 5 + vi) % len(VIEWS)]
+                    check_util_rolling(col, view_rows(rows, view), w, "ragged", view=view)
 
     # ---- B. exhaustive contents
     def all_rows(alph, maxlen):
@@ -736,6 +912,28 @@ def run(tier="quick", seed=0):
                             check_motif(col, alph, rows, w, "ints", old=True)
                         if A ** w <= (64 if quick else 256) and variant < 2:
                             check_counts(col, alph, rows, w, None if variant == 0 else -1)
+            # V: the variant-0 rows as an unflattened view; the kind cycles with (shape, w, alphabet): bit-packed and generic path
+            for ai, alph in enumerate(("ACGT", "ACG")):
+                A = len(alph)
+                rows0 = content(lengths, alph, 0)
+                for vi in range((1 if len(lengths) < 3 or (si + w + ai) % 2 == 0 else 0) if quick else 3):
+                    view = VIEWS[(si * 5 + w * 3 + ai * 7 + vi * 5) % len(VIEWS)]
+                    rows = view_rows(rows0, view)
+                    x = si + w + vi
+                    check_kmers(col, alph, rows, w, "api", render=False, view=view)
+                    if alph == "ACGT":
+                        check_kmers(col, alph, rows, w, "text" if x % 2 else "rolling", render=False, view=view)
+                    for k in sorted(set([1 + x % w, w] if quick else range(1, w + 1))):
+                        check_minimizers(col, alph, rows, k, w, view=view)
+                    pats = patterns_for(rows, w, alph, False)
+                    for pi, p in enumerate(pats[:2] if quick else pats):
+                        check_match(col, alph, rows, p, text=(alph == "ACGT" and (x + pi) % 2 == 0),
+                                    pat_as="array" if (x + pi) % 3 == 0 else "str", view=view)
+                    check_motif(col, alph, rows, w, ("digits", "floats", "ints")[x % 3], text=(x % 2 == 1 and alph == "ACGT"), view=view)
+                    if x % 3 == 0 or not quick:
+                        check_motif(col, alph, rows, w, "ints", old=True, view=view)
+                    if A ** w <= (64 if quick else 256):
+                        check_counts(col, alph, rows, w, None if x % 2 else -1, view=view, text=(alph == "ACGT" and x % 4 < 2))
         if si % 5 == 0 and stop():
             return col.result()
 
@@ -754,6 +952,14 @@ def run(tier="quick", seed=0):
                         if k <= w:
                             check_minimizers(col, alph, rows, k, w)
                     check_motif(col, alph, rows, w, "digits")
+                view = VIEWS[(sum((i + 2) * L for i, L in enumerate(lengths)) + w) % len(VIEWS)]
+                vrows = view_rows(rows, view)
+                check_kmers(col, alph, vrows, w, "api", render=False, view=view)
+                if not quick:
+                    check_motif(col, alph, vrows, w, "digits", view=view)
+                    check_minimizers(col, alph, vrows, 1 + sum(lengths) % w, w, view=view)
+                    for p in patterns_for(vrows, w, alph, False)[:1]:
+                        check_match(col, alph, vrows, p, text=(alph == "ACGT"), view=view)
         if stop():
             return col.result()
 
@@ -774,6 +980,14 @@ def run(tier="quick", seed=0):
             for p in patterns_for(rows, w, alph, False)[:2]:
                 check_match(col, alph, rows, p, text=rng.random() < 0.5)
             check_motif(col, alph, rows, w, rng.choice(["digits", "floats"]))
+        view = vrng.choice(VIEWS)
+        vrows = view_rows(rows, view)
+        check_kmers(col, alph, vrows, w, "text" if alph == "ACGT" and vrng.random() < 0.3 else "api", render=False, view=view)
+        if alph in ("ACGT", "ACG"):
+            check_minimizers(col, alph, vrows, vrng.randint(1, w), w, view=view)
+            for p in patterns_for(vrows, w, alph, False)[:1]:
+                check_match(col, alph, vrows, p, text=vrng.random() < 0.5, view=view)
+            check_motif(col, alph, vrows, w, vrng.choice(["digits", "floats"]), text=(alph == "ACGT" and vrng.random() < 0.5), view=view)
         if stop():
             break
     return col.result()
@@ -783,19 +997,22 @@ def replay(case):
     col = Collector("C13", "quick", 0, "replay")
     fn = case["fn"]
     if fn == "kmers":
-        check_kmers(col, case["alph"], case["rows"], case["k"], case["path"], case["kind"])
+        check_kmers(col, case["alph"], case["rows"], case["k"], case["path"], case["kind"], view=case.get("view"))
     elif fn == "codec":
         check_kmer_codec(col, case["alph"], case["k"], case["texts"])
     elif fn == "minimizers":
-        check_minimizers(col, case["alph"], case["rows"], case["k"], case["w"], case["kind"])
+        check_minimizers(col, case["alph"], case["rows"], case["k"], case["w"], case["kind"], view=case.get("view"))
     elif fn == "match":
-        check_match(col, case["alph"], case["rows"], case["pat"], case["text"], case["kind"], case.get("pat_as", "str"))
+        check_match(col, case["alph"], case["rows"], case["pat"], case["text"], case["kind"], case.get("pat_as", "str"), view=case.get("view"))
     elif fn == "motif":
-        check_motif(col, case["alph"], case["rows"], case["w"], case["style"], case["text"], case["kind"], case["old"])
+        check_motif(col, case["alph"], case["rows"], case["w"], case["style"], case["text"], case["kind"], case["old"], view=case.get("view"))
     elif fn == "counts":
-        check_counts(col, case["alph"], case["rows"], case["k"], case["axis"])
+        check_counts(col, case["alph"], case["rows"], case["k"], case["axis"], view=case.get("view"), text=case.get("text", False))
+    elif fn == "bigcounts":
+        check_big_counts(col, case["alph"], case["layout"], case["windows"], case["k"], case["axis"], view=case.get("view"),
+                         text=case.get("text", False), salt=case.get("salt", 0))
     elif fn == "util":
-        check_util_rolling(col, case["rows"], case["w"], case["kind"])
+        check_util_rolling(col, case["rows"], case["w"], case["kind"], view=case.get("view"))
     else:
         return False, "unknown case kind %r" % (fn,)
     if col.failures:
